@@ -889,6 +889,7 @@ public:
         value(std::move(v)), sp{ sp }
     {}
 
+    template<typename T = VT, typename = std::enable_if_t<std::is_copy_constructible_v<T>>>
     constexpr operator VT() const { return value; }
     constexpr size32_t get_line() const { return sp.line; }
     constexpr size32_t get_column() const { return sp.column; }
